@@ -40,11 +40,11 @@ resolvers; git duplicate-directories cancel_creation) were repaired by fix:
 commits in /repo and are plain violations if they return (corpus/C14 holds one
 minimal case each, run first).  One family is a committed known finding and is
 the only one `_classify` names: preview-extras-lists-deleted-entry.  Two more
-families are named where they are detected in `check_case`:
-limbo-child-stale-after-fallback (apply() of a clean transform ends with
-ImmortalLimbo and loses a new file) and resolver-parent-loop-of-new-entries
-(resolve_conflicts raises KeyError from get_tree_parent for a loop of new
-entries instead of MalformedTransform).
+defects (apply() of a clean transform ending with ImmortalLimbo because a new
+entry that fell back to a top-level limbo name stayed a limbo child of its
+parent; KeyError instead of MalformedTransform for a parent loop of new
+entries) were repaired by fix: commit ef486b5 and are plain violations too
+(corpus cases f8 / f9).
 
 Generator limits (outside what merge / revert / build_tree can produce; seen to
 crash resolvers with DuplicateKey / ValueError / NoFinalPath and kept out of the
@@ -999,9 +999,6 @@ def check_case(ctx, case, res, reply, flags):
         fam = None
         tb = res.get("resolve_tb", "")
         fr = res.get("resolve_frame", "")
-        if r == "crashed:KeyError" and fr.startswith("get_tree_parent:") and "resolve_parent_loop" in tb:
-            # a parent loop whose moved entry is new: resolve_parent_loop asks for its tree parent
-            fam = "resolver-parent-loop-of-new-entries"
         ctx.violation(cid, "resolve_conflicts raised %s instead of returning or raising MalformedTransform (conflicts %s) in %s"
                       % (r[8:], res.get("conf0"), fr or (tb.strip().splitlines()[-1] if tb else "")), family=fam)
         if res.get("after") is not None and res["after"] != before:
@@ -1016,15 +1013,8 @@ def check_case(ctx, case, res, reply, flags):
         return
     # clean
     if res.get("apply") != "ok":
-        fam = None
-        if res.get("apply") == "E:ImmortalLimbo":
-            # a new entry that fell back to a top-level limbo name stays registered as a limbo child of its
-            # parent; renaming the parent then points its limbo name at the parent directory itself
-            fam = "limbo-child-stale-after-fallback"
         ctx.violation(cid, "conflict-free transform (after resolve_conflicts) does not apply: %s %s"
-                      % (res.get("apply"), (res.get("apply_tb") or "").strip().splitlines()[-1:]), family=fam)
-        if fam is not None:
-            return
+                      % (res.get("apply"), (res.get("apply_tb") or "").strip().splitlines()[-1:]))
         if res.get("after") != before:
             ctx.violation(cid, "partially applied tree after failed apply(): %r"
                           % (_diffs(_norm_real(fmt, before), _norm_real(fmt, res.get("after") or {}))[:4],))
